@@ -506,4 +506,18 @@ func rwLock(fr *frame, s structure, write bool) {
 }
 
 // stubSets are per-harness stub collections selectable from checks/<id>.json.
-var stubSets = map[string]map[string]externalFn{}
+var stubSets = map[string]map[string]externalFn{
+	// os.Pipe without the kernel: two fresh *os.File objects
+	"os-pipe": {
+		"os.Pipe": func(fr *frame, args []value) value {
+			op := fr.i.prog.ImportedPackage("os")
+			ft := op.Type("File").Object().Type()
+			mk := func() value {
+				cell := zero(ft)
+				return &cell
+			}
+			return tuple{mk(), mk(), iface{}}
+		},
+		"(*os.File).Close": func(fr *frame, args []value) value { return iface{} },
+	},
+}
